@@ -4,7 +4,7 @@ use indexmap::IndexSet;
 pub use options::{Options, Regex};
 use patch_flags::PatchFlags;
 use slot_flag::SlotFlag;
-use std::{borrow::Cow, collections::BTreeMap, mem};
+use std::{borrow::Cow, cell::RefCell, collections::BTreeMap, mem};
 use swc_core::{
     common::{comments::Comments, Mark, Span, Spanned, SyntaxContext, DUMMY_SP},
     ecma::{
@@ -44,6 +44,8 @@ where
     define_component: Option<SyntaxContext>,
     interfaces: FnvHashMap<(Atom, SyntaxContext), TsInterfaceDecl>,
     type_aliases: FnvHashMap<(Atom, SyntaxContext), TsType>,
+    /// declarations being expanded by type resolution, innermost last
+    expanding_types: RefCell<Vec<(Atom, SyntaxContext)>>,
 
     unresolved_mark: Mark,
     comments: Option<C>,
@@ -71,6 +73,7 @@ where
             define_component: None,
             interfaces: Default::default(),
             type_aliases: Default::default(),
+            expanding_types: Default::default(),
 
             unresolved_mark,
             comments,
